@@ -139,16 +139,25 @@ pub fn c16(a: &Args) -> i32 {
             ga2.fetch_sub(1, Ordering::SeqCst);
             match v["exit"].as_str().unwrap_or("ret") {
                 "err" => Err((ErrorCode::ApplicationErrorBase, "scripted".into())),
-                "panic" => panic!("scripted handler panic"),
+                // panic messages of every shape: short, and long ones whose multi-byte characters straddle every
+                // round byte offset (whatever is done with the message, the caller still gets its InternalError reply)
+                "panic" => match n % 4 {
+                    0 => panic!("scripted handler panic"),
+                    1 => panic!("{}", format!("p{}", "é".repeat(700))),
+                    2 => panic!("{}", format!("pp{}", "é".repeat(700))),
+                    _ => panic!("{}", format!("{}{}", "p".repeat((n % 3) as usize), "€".repeat(500))),
+                },
                 _ => Ok(json!({"n": n})),
             }
         };
         let l3 = log.clone();
         // on odd schedules the blocking route is registered BEFORE the middleware (the middleware rebuild must keep it off-reader)
+        // the route's name is long and not ASCII on two schedules out of three (it is echoed, logged and reported)
+        let wpath: String = match si % 3 { 0 => "/work".to_string(), 1 => format!("/wx{}", "é".repeat(40)), _ => format!("/wxy{}", "€".repeat(150)) };
         let router = if si % 2 == 0 {
-            Router::new().with_middleware(|req: &Message, next: repe::server::Next<'_>| next.run(req)).with_json_blocking("/work", work)
+            Router::new().with_middleware(|req: &Message, next: repe::server::Next<'_>| next.run(req)).with_json_blocking(&wpath, work)
         } else {
-            Router::new().with_json_blocking("/work", work).with_middleware(|req: &Message, next: repe::server::Next<'_>| next.run(req))
+            Router::new().with_json_blocking(&wpath, work).with_middleware(|req: &Message, next: repe::server::Next<'_>| next.run(req))
         };
         let router = router
             .with_json("/inline", |v| Ok(json!({"inline": v})))
@@ -159,10 +168,14 @@ pub fn c16(a: &Args) -> i32 {
         let addr = listener.local_addr().unwrap();
         // the per-connection outbound queue is also varied: parked handlers must not pin its capacity
         let outcap = [256usize, 1, 2][si % 3];
-        let server = WebSocketServer::new(router).with_offreader_limit(cap).with_outbound_capacity(outcap).on_error(move |e: &ConnectionError| {
+        let server = WebSocketServer::new(router).with_offreader_limit(cap).with_outbound_capacity(outcap);
+        // one schedule in four has NO error hook (the server then prints the event itself); the others format it, as a
+        // logging hook would
+        let server = if si % 4 == 3 { server } else { server.on_error(move |e: &ConnectionError| {
             let k = match e { ConnectionError::Saturation { .. } => "saturation", ConnectionError::HandlerPanic { .. } => "handler_panic", _ => "other" };
-            l3.push(json!({"ev": "on_error", "kind": k}));
-        });
+            let text = format!("{e} / {e:?}");
+            l3.push(json!({"ev": "on_error", "kind": k, "text_len": text.len()}));
+        }) };
         let srv = rt.spawn(async move { let _ = server.serve_listener(listener, "/ws").await; });
         std::thread::sleep(Duration::from_millis(20));
         let mut ws = ws_connect(addr, "/ws");
@@ -172,7 +185,7 @@ pub fn c16(a: &Args) -> i32 {
             next_id.set(next_id.get() + 1);
             let id = next_id.get();
             log.push(json!({"ev": "arrive", "n": n, "id": id, "kind": "off", "notify": notify, "exit": exit}));
-            ws_send(ws, &Message::builder().id(id).notify(notify).query_str("/work").body_json(&json!({"n": n, "exit": exit})).unwrap().build());
+            ws_send(ws, &Message::builder().id(id).notify(notify).query_str(&wpath).body_json(&json!({"n": n, "exit": exit})).unwrap().build());
             id
         };
         let expect_resp = |ws: &mut Ws, log: &Arc<Log>, t: Duration| -> Option<(u64, u32)> {
